@@ -102,6 +102,9 @@ type Exec struct {
 	known        map[string]bool
 	env          *EnvState
 	freshDefs    map[string]FreshDef
+	varBounds    map[string]ivl
+	boundMemo    map[int]ivl
+	extraBounds  map[int]ivl
 	divMemo      map[[2]int][2]*Term
 	edivMemo     map[[2]int][2]*Term
 	model        *Model
@@ -160,6 +163,7 @@ func (ex *Exec) addPC(c *Term) {
 	}
 	ex.pc = append(ex.pc, c)
 	ex.solver.Assert(c)
+	ex.noteBoundsFrom(c)
 }
 
 // side constraint that is always satisfiable (definitional axiom for a fresh variable)
@@ -168,6 +172,7 @@ func (ex *Exec) axiom(c *Term) {
 		return
 	}
 	ex.solver.Assert(c)
+	ex.noteBoundsFrom(c)
 }
 
 func (ex *Exec) freshVar(prefix string, s Sort) *Term {
@@ -459,7 +464,7 @@ func (w *World) RunPath(wk *Worker, h *Harness, prefix []Decision, startModel ma
 	wk.solver.Reset()
 	ex := &Exec{
 		w: w, wk: wk, tf: tf, solver: wk.solver, harness: h,
-		log: prefix, inNames: map[string]int{}, freshDefs: map[string]FreshDef{}, divMemo: map[[2]int][2]*Term{}, edivMemo: map[[2]int][2]*Term{},
+		log: prefix, inNames: map[string]int{}, freshDefs: map[string]FreshDef{}, varBounds: map[string]ivl{}, boundMemo: map[int]ivl{}, extraBounds: map[int]ivl{}, divMemo: map[[2]int][2]*Term{}, edivMemo: map[[2]int][2]*Term{},
 		globals: map[*ssa.Global]*Cell{}, initDone: map[*ssa.Package]bool{},
 		maxInstrs: h.MaxInstrs, unwind: h.Unwind, mapOrder: "insertion",
 		known: w.known,
